@@ -39,7 +39,11 @@ def desc(M, floor=0.0):
     # numerical rank is only meaningful across a clear gap: intermediate results (Gram matrices,
     # pseudoinverses) can be ill conditioned, and then no threshold is "the" rank
     amb = bool(nz > 0 and np.any((s > max(1e-13 * top, floor)) & (s < 1e-4 * top)))
-    orth = bool(n <= m and S.ortho_units(M) <= 65536)
+    ou = S.ortho_units(M) if n <= m else 2 ** 30
+    orth = bool(ou <= 65536)
+    # "orthonormal to working accuracy" needs a clear gap as well: a factor that is orthonormal only to 1e-11
+    # (a converged Schur factor of a unitary matrix, say) is neither, and what is derived from it inherits the doubt
+    amb = amb or bool(4096 < ou < 2 ** 26)
     herm = bool(m == n and ofro(M - oherm(M)) <= 1e-9 * max(nz, 1e-300))
     tri = bool(all(not np.any(np.abs(M[i, j]) > 1e-11 * max(nz, 1e-300)) for i in range(m) for j in range(min(i, n))))
     return {"m": int(m), "n": int(n), "r": r, "orth": orth, "herm": herm, "tri": tri, "_amb": amb}
@@ -111,6 +115,10 @@ def _run_program(args):
         if i > len(heap):
             break
         A = heap[i - 1]
+        if op in ("eig", "tridiag") and A.shape[0] == A.shape[1] and k > 0:
+            # a DERIVED operand is Hermitian only to the accuracy of the routine that produced it; the Hermitian-only
+            # routines document an accurate test, so the caller symmetrises (exact: (A + A^H)/2 is bitwise Hermitian)
+            A = (A + oherm(A)) / 2.0
         a = desc(A)
         Aq = q_from_float(A)
         h0 = sha(A)
@@ -160,6 +168,41 @@ def _run_program(args):
                         break
                     Pq, Hq = L.hess.hessenbergize(Aq)
                     res = [q_to_float(np.asarray(Pq)), q_to_float(np.asarray(Hq))]
+                elif op == "det":
+                    if A.shape[0] != A.shape[1]:
+                        break
+                    sv = osvals(A)
+                    top = max(float(sv[0]) if len(sv) else 0.0, 1e-300)
+                    dv = float(np.real(L.utils.det(Aq, "Dieudonne")))
+                    # "zero" for a product of n singular values: below n rounding-level factors of the largest one
+                    e["value"] = {"nonzero": int(abs(dv) > 1e-9 * top ** A.shape[0]), "count": 0}
+                    if a["r"] == a["n"] and float(sv[-1]) < 1e-3 * top:
+                        skipped += 1          # ill conditioned: the product is legitimately tiny
+                        break
+                elif op == "lu":
+                    if a["r"] != min(A.shape[:2]) or leading_deficient(A):
+                        break
+                    Lq, Uq, Pq = L.LU.quaternion_lu(Aq, return_p=True)
+                    res = [q_to_float(np.asarray(Lq)), q_to_float(np.asarray(Uq)), q_to_float(np.asarray(Pq))]
+                elif op == "tridiag":
+                    if not a["herm"] or A.shape[0] < 2:
+                        break
+                    Pq, Bq = L.tridiag.tridiagonalize(Aq)
+                    res = [q_to_float(np.asarray(Pq)), q_to_float(np.asarray(Bq))]
+                elif op == "nullL":
+                    if a["r"] >= a["m"]:
+                        break
+                    res = [q_to_float(np.asarray(L.utils.quat_null_space(Aq, side="left")))]
+                elif op == "trunc1":
+                    if a["r"] < 1:
+                        break
+                    Uq, s1, Vq = L.qsvd.classical_qsvd(Aq, 1)
+                    res = [q_to_float(np.asarray(Uq)), q_to_float(np.asarray(Vq))]
+                elif op == "schur":
+                    if A.shape[0] != A.shape[1]:
+                        break
+                    Qq, Tq = L.schur.quaternion_schur_unified(Aq, variant="rayleigh", max_iter=60)
+                    res = [q_to_float(np.asarray(Qq)), q_to_float(np.asarray(Tq))]
                 elif op == "eig":
                     if not a["herm"]:
                         break
@@ -180,6 +223,13 @@ def _run_program(args):
         if op == "null" and (a["n"] - a["r"]) >= 2:
             skipped += 1
             outs[0]["r"] = outs[0]["n"]
+        if op == "nullL" and (a["m"] - a["r"]) >= 2:
+            skipped += 1
+            outs[0]["r"] = outs[0]["n"]
+        if op == "trunc1" and degenerate(A):
+            skipped += 1
+            for o in outs:
+                o["orth"], o["r"] = True, 1
         e["out"] = outs
         amb = a.pop("_amb", False) | any(o.pop("_amb", False) for o in outs) | (e["b"].pop("_amb", False) if e["b"] is not a else False)
         if amb:
